@@ -308,6 +308,16 @@ def R4_conservation(ctx):
         ctx.check(all(x[0] == "call" and x[1] in (APP + "run_batch_with_responses", APP + "run_batch_without_responses") for x in alts) and len(alts) == 2, "run:result=search-responses.chain(errors)", "the final result is not run_batch_*(..).chain(error_inputs)", ch[0].where(), detail="run_query_result.chain(error_inputs).collect()")
         rt = nosite(deep_strip(tm.return_term()))
         ctx.check(contains(rt, lambda s: s[0] == "call" and re.search(r"Iterator::collect", s[1]) and contains(s[2][0], lambda q: q[0] == "call" and q[1].endswith("Iterator::chain"))), "run:returns-collected-chain", "run does not return the collected chain", b.where())
+        # every Ok return (also the early one when nothing survives input processing) carries the error responses
+        alts = list(rt[1]) if rt[0] == "phi" else [rt]
+        n_ok = 0
+        for a in alts:
+            a = unmut_all(a)
+            if is_err_value(a) or (a[0] == "call" and a[1].endswith("from_residual")):
+                continue
+            n_ok += 1
+            ctx.check(contains(a, lambda s: s == ("field", u, "1")), "run:Ok-return-carries-input-errors", "an Ok return of run does not contain the responses of the queries that failed input processing: %s" % short(a)[:160], b.where(), detail="Ok(.. error_inputs ..)")
+        ctx.check(n_ok >= 2, "run:Ok-returns-found", "expected the early and the final Ok return of run, found %d" % n_ok, b.where())
     # load balancing loop
     lbb = F.need(OPS + "apply_load_balancing_policy")
     loops = lbb.natural_loops()
